@@ -740,10 +740,65 @@ func genC18Large(g *G) {
 	}
 }
 
+// genC18Repeat: the same binary predicate on the same two set variables, asked again after the ARGUMENT (or the
+// receiver) was changed by two mutations that restore its length (remove one member, add a non-member), and after a
+// change that does alter the length — an answer remembered for "these two maps with these lengths" is stale then
+// (round-7 seed).
+func genC18Repeat(g *G) {
+	for c := 0; c < g.Scale(120, 1200); c++ {
+		a := g.R.Perm(7)[:1+g.Intn(4)]
+		b := g.R.Perm(7)[:1+g.Intn(5)]
+		if g.Chance(1, 2) { // make a ⊆ b often
+			b = append(append([]int(nil), a...), b...)
+		}
+		in := func(xs []int, v int) bool {
+			for _, x := range xs {
+				if x == v {
+					return true
+				}
+			}
+			return false
+		}
+		var bs []int
+		for _, v := range b {
+			if !in(bs, v) {
+				bs = append(bs, v)
+			}
+		}
+		ops := []string{"reset", "new s0" + c18list(a), "new s1" + c18list(bs)}
+		for step := 0; step < 2+g.Intn(3); step++ {
+			q := g.Pick("issubset s0 s1", "equals s0 s1", "intersects s0 s1", "issubset s1 s0", "intersects s1 s0")
+			ops = append(ops, q)
+			tgt, cur := "s1", &bs
+			if g.Chance(1, 4) {
+				tgt, cur = "s0", &a
+			}
+			if len(*cur) > 0 {
+				out := (*cur)[g.Intn(len(*cur))]
+				nw := 7 + g.Intn(3)
+				for in(*cur, nw) {
+					nw++
+				}
+				ops = append(ops, fmt.Sprintf("remove %s %d", tgt, out), fmt.Sprintf("add %s %d", tgt, nw))
+				var next []int
+				for _, v := range *cur {
+					if v != out {
+						next = append(next, v)
+					}
+				}
+				*cur = append(next, nw)
+			}
+			ops = append(ops, q)
+		}
+		g.Case(ops)
+	}
+}
+
 func genC18(g *G) {
 	genC18Pairs(g)
 	genC18Histories(g)
 	genC18Large(g)
+	genC18Repeat(g)
 	cases := g.Scale(500, 6000)
 	maxOps := g.Scale(60, 250)
 	for c := 0; c < cases; c++ {
